@@ -745,8 +745,16 @@ func (st *SymTable) AnalyzeBlock(bound, free, global StringSet) {
 		newbound.Update(bound)
 	}
 
-	for name, v := range st.Symbols {
-		st.AnalyzeName(scopes, name, v, bound, local, free, global)
+	// Analyze the names in sorted order: AnalyzeName raises a
+	// SyntaxError on the first name in error, so with several names in
+	// error the message would otherwise depend on map iteration order
+	names := make([]string, 0, len(st.Symbols))
+	for name := range st.Symbols {
+		names = append(names, name)
+	}
+	sort.Strings(names)
+	for _, name := range names {
+		st.AnalyzeName(scopes, name, st.Symbols[name], bound, local, free, global)
 	}
 
 	/* Populate global and bound sets to be passed to children. */
